@@ -66,6 +66,9 @@ type Check struct {
 	Thorough []Job
 	Bounds   string
 	Assume   []string
+	// native-only entries run once per check run (empty model) to validate the contract of a stub against the real
+	// library on a fixed set of concrete inputs; a failing assertion is reported like a witness failure
+	NativeContracts []string
 }
 
 func pkgDirOf(pkg string) string {
